@@ -76,7 +76,28 @@ def dumpOp : Handler
     | some p => "ok " ++ dumpPset p
   | _, _ => "bad-op"
 
+/-- `pset.totxout <tx hex> <additions>` → `Output::to_txout` of every output, `<txout hex>/<witness hex>`
+    joined by `,` (`-` when there is no output); also the derived predicates
+    `is_partially_blinded` / `is_fully_blinded` / `is_marked_for_blinding` (`p`/`f`/`m`) per output and, per input, `has_issuance`/`is_pegin` -/
+def totxoutOp : Handler
+  | cfg, [h, adds] =>
+    match describe cfg h adds with
+    | none => "bad-op"
+    | some p =>
+      let outs := if p.outputs.isEmpty then "-" else
+        String.intercalate "," (p.outputs.map fun o =>
+          let t := o.toTxOut
+          let fully := o.blindingKey.isSome && o.amountComm.isSome && o.assetComm.isSome && o.valueRangeproof.isSome &&
+            o.assetSurjectionProof.isSome && o.ecdhPubkey.isSome
+          s!"{Hex.enc t.enc}/{Hex.enc t.witness.enc}/" ++ (if o.isPartiallyBlinded then "p" else "-") ++
+            (if fully then "f" else "-") ++ (if o.blindingKey.isSome then "m" else "-"))
+      let ins := if p.inputs.isEmpty then "-" else
+        String.intercalate "." (p.inputs.map fun i =>
+          (if i.isPegin then "p" else "-") ++ (if i.hasIssuance then "i" else "-") ++ ":" ++ Hex.enc i.assetIssuance.enc)
+      s!"ok {outs} {ins}"
+  | _, _ => "bad-op"
+
 def ops : List (String × Handler) :=
   [("pset.locktime", locktimeOp), ("pset.fromtx", fromtxOp), ("pset.extract", extractOp),
-   ("pset.uid", uidOp), ("pset.dump", dumpOp)]
+   ("pset.uid", uidOp), ("pset.dump", dumpOp), ("pset.totxout", totxoutOp)]
 end EV.Driver.C08
